@@ -117,9 +117,18 @@ def parse_machine_listing(text: str, convert: bool=True, strict: bool=True) -> \
     listing = []
 
     for line in text.splitlines(False):
-        facts = line.split(';')
         row = {}
         filename = None
+
+        # RFC 3659 7.2: facts, each ended by ";", then a space and the
+        # path name - in which ";" and "=" stand for themselves.
+        match = re.match(r'((?:[^;= ]+=[^;]*;)*) (.*)$', line)
+
+        if match:
+            facts = match.group(1).split(';')[:-1]
+            filename = match.group(2)
+        else:
+            facts = line.split(';')
 
         for fact in facts:
             name, sep, value = fact.partition('=')
